@@ -12,7 +12,7 @@
 (***************************************************************************)
 EXTENDS Aggregate
 
-CONSTANTS NNode, MaxFaces, Sizes, Canon, NPat, Salt
+CONSTANTS NNode, MaxFaces, Sizes, Canon, NPat, Salt, Pads
 
 VARIABLES mesh, rows
 
@@ -55,10 +55,20 @@ L2_FaceAgg ==
        IN \A op \in Ops : \A r \in 1..4 : AlgFaceAggFrom(g, rows[r], op, 2) = SpecAgg(mesh, rows[r], op, 2)
 
 \* a wider table (more padding) changes nothing
+\* table layouts: the stored table may be wider than its widest face (every row padded), with uniform and with
+\* mixed sizes; Pads = the extra widths the harness also replays.  Nothing changes, for every argsort outcome.
 PaddingIrrelevant ==
-    LET T2 == Stored(mesh, W + 2)
-        g  == AlgFaceGather(T2, StableOrder(AlgNodesPerFace(T2)))
-    IN \A op \in Ops : \A r \in 1..4 : AlgFaceAggFrom(g, rows[r], op, 1) = SpecAgg(mesh, rows[r], op, 1)
+    \A x \in Pads \ { 0 } :
+        LET T2 == Stored(mesh, W + x)
+            N2 == AlgNodesPerFace(T2)
+        IN /\ N2 = N
+           /\ \A o \in AscendingOrders(N2) :
+                LET g == AlgFaceGather(T2, o)
+                IN \A op \in Ops : \A r \in 1..4 : AlgFaceAggFrom(g, rows[r], op, 1) = SpecAgg(mesh, rows[r], op, 1)
+\* the shortcut "all faces have one size: gather the whole table" is wrong exactly on such a wider table
+WholeTableIsWrong ==
+    (Cardinality(Range(N)) = 1 /\ Pads \ { 0 } # {}) =>
+        \A x \in Pads \ { 0 } : \E f \in 1..Len(mesh) : PAD \in Range(Stored(mesh, W + x)[f])
 
 \* edge aggregation on the derived edge table, and independence of the order of the two ends
 L2_EdgeAgg ==
